@@ -210,7 +210,12 @@ Tree* splay_erase(const Key& k, Tree*& t, const Compare& cmp)
         else
         {
             Tree* x = splay(k, t->left, cmp);
-            x->right = t->right;
+            // with duplicates x may still have a right subtree of keys equal
+            // to k: append t->right below its rightmost node
+            Tree* m = x;
+            while (m->right != nullptr)
+                m = m->right;
+            m->right = t->right;
             t = x;
         }
         return r;
